@@ -324,6 +324,19 @@ func halfDone(r *ring.Ring, in, aOut, bOut ring.Poly) {
 	r.NTT(in, aOut)
 }
 
+// RECPROGRESS control: recursion on the tail without checking that something was consumed
+func fillAll(r io.Reader, c []byte) (n int, err error) {
+	if len(c) == 0 {
+		return
+	}
+	k, err := r.Read(c)
+	if err != nil {
+		return k, err
+	}
+	m, err := fillAll(r, c[k:])
+	return k + m, err
+}
+
 // DEGLOOP control: the last component is never negated
 func (e fixEvaluator) NegHigh(op0, opOut *rlwe.Ciphertext) {
 	for i := 1; i < op0.Degree(); i++ {
